@@ -234,6 +234,10 @@ Definition frame_tcp (s : slice) (f : frame) := acc_at s (f_offT f).
 Definition frame_payload (s : slice) (f : frame) := acc_at s (f_offP f).
 Definition frame_has_ip (f : frame) : bool := negb (Nat.eqb (f_off4 f) 0) || negb (Nat.eqb (f_off6 f) 0).
 
+(* Frame.Log(line) (layer_frame.go:72-83): the only other exported method; besides Frame fields it evaluates
+   len(frame.Payload()) (and frame.Host.MACEntry.Captured when the host pointer is set) *)
+Definition frame_log (s : slice) (f : frame) : res unit := _ <- frame_payload s f ;; Ok tt.
+
 (* X(frame.Payload()) : a nil payload converts to an empty view *)
 Definition payload_view (s : slice) (f : frame) : res slice :=
   o <- frame_payload s f ;; Ok (match o with Some x => x | None => nil_slice end).
